@@ -8,6 +8,7 @@ import HSModel.Spec
 import HSModel.Proofs.RefineAll
 import HSModel.Proofs.StepLemmas
 import HSModel.Proofs.Report
+import HSModel.Proofs.HexReader
 namespace HS.C02
 
 /-- every supported hashlib name is accepted unchanged (complete table) -/
@@ -211,5 +212,18 @@ theorem store_reports_truth_under_every_interleaving (calls : List Call) (w0 : W
   rw [hc] at hq
   exact hq
 
+
+/-- **`get_hex_digest` returns a true digest, whatever races** (statement and proof in
+    `Proofs/HexReader.lean`): any calls, any number of threads, every schedule and granularity, any
+    fault plan — a `get_hex_digest` that returns normally returns the digest, under a supported
+    algorithm, of content that sits at a cid some pid reference held. -/
+theorem hex_digest_true_under_every_interleaving (calls : List Call) (w0 : World) (vs0 : List Str) (ts0 : List Tok)
+    (hv : C09.ValuesFrom vs0 ts0 w0.st) (hob : C09.ObjsAddressed cfg o w0.st) (fuel : Nat) (sched : List Nat) (n : Nat) :
+    let cf := (runSchedule fuel { w := w0, ts := calls.map (fun c => TState.fresh (c.prog cfg o)) } sched n).1
+    let vs := vs0 ++ calls.flatMap (C09.cidsSupplied cfg o)
+    ∀ (i : Nat) (d : Str) (pid alg : SArg), cf.ts[i]? = some (.finished (.ok (.hex d))) →
+      calls[i]? = some (.getHexDigest pid alg) →
+      ∃ a t, d = o.dig a t ∧ ∃ c ∈ vs, ∃ k, c = o.dig cfg.alg t ++ C09.markers k :=
+  HexReader.hex_digest_true_under_every_interleaving cfg o calls w0 vs0 ts0 hv hob fuel sched n
 
 end HS.C02
